@@ -401,6 +401,54 @@ pub fn dispatch(f: &[&str]) -> String {
             let mut out = String::new();
             match write!(out, "{}", mbs) { Ok(()) => format!("ok\t{}", hex(out.as_bytes())), Err(_) => "fmt-error".into() }
         }
+        "mboxes.serde" => {
+            // serialization: a mailbox / a list serializes to its Display text and deserializes like FromStr of that text; the object form
+            // {"name", "email"} and the sequence form give exactly the values they hold
+            use lettre::message::{Mailbox, Mailboxes};
+            let mut list: Vec<Mailbox> = vec![];
+            if !f[1].is_empty() {
+                for m in f[1].split(';') {
+                    let p: Vec<&str> = m.split(',').collect();
+                    let name = if p[0] == "!" { None } else { utf8(unhex(p[0])) };
+                    let Some(e) = utf8(unhex(p[1])) else { return "invalid-utf8".into() };
+                    let Ok(addr) = e.parse::<lettre::Address>() else { return "bad-address".into() };
+                    list.push(Mailbox::new(name, addr));
+                }
+            }
+            // the object form: "name" is left out when there is none
+            fn obj_of(m: &lettre::message::Mailbox) -> serde_json::Value {
+                match &m.name { Some(n) => serde_json::json!({"name": n, "email": m.email.to_string()}), None => serde_json::json!({"email": m.email.to_string()}) }
+            }
+            let mut bad: Vec<String> = vec![];
+            for m in &list {
+                let shown = m.to_string();
+                match serde_json::to_string(m) {
+                    Ok(js) => {
+                        if js != serde_json::to_string(&shown).unwrap() { bad.push(format!("mailbox serializes to {js}, Display is {shown:?}")); }
+                        let de: Result<Mailbox, _> = serde_json::from_str(&js);
+                        let ps: Result<Mailbox, _> = shown.parse();
+                        match (&de, &ps) { (Ok(a), Ok(b)) if a == b => {} (Err(_), Err(_)) => {} _ => bad.push(format!("deserializing {js} gives {de:?}, parsing the text gives {ps:?}")) }
+                    }
+                    Err(e) => bad.push(format!("mailbox does not serialize: {e}")),
+                }
+                let obj = obj_of(m).to_string();
+                match serde_json::from_str::<Mailbox>(&obj) { Ok(a) if &a == m => {} other => bad.push(format!("object form {obj} gives {other:?}")) }
+            }
+            let mbs: Mailboxes = list.iter().cloned().collect();
+            let shown = mbs.to_string();
+            match serde_json::to_string(&mbs) {
+                Ok(js) => {
+                    if js != serde_json::to_string(&shown).unwrap() { bad.push(format!("list serializes to {js}, Display is {shown:?}")); }
+                    let de: Result<Mailboxes, _> = serde_json::from_str(&js);
+                    let ps: Result<Mailboxes, _> = shown.parse();
+                    match (&de, &ps) { (Ok(a), Ok(b)) if a == b => {} (Err(_), Err(_)) => {} _ => bad.push(format!("deserializing the list {js} gives {de:?}, parsing gives {ps:?}")) }
+                }
+                Err(e) => bad.push(format!("list does not serialize: {e}")),
+            }
+            let seq = serde_json::Value::Array(list.iter().map(obj_of).collect()).to_string();
+            match serde_json::from_str::<Mailboxes>(&seq) { Ok(a) if a == mbs => {} other => bad.push(format!("sequence form gives {other:?}")) }
+            if bad.is_empty() { "ok".into() } else { format!("bad\t{}", hex(bad.join(" | ").as_bytes())) }
+        }
         "mbox.parse" => {
             let Some(s) = utf8(unhex(f[1])) else { return "invalid-utf8".into() };
             match s.parse::<lettre::message::Mailbox>() {
